@@ -131,13 +131,26 @@ def run(ctx):
     thorough = ctx.tier == 'thorough'
     ctx.level = 'other'
     ctx.explanation = (
-        'BOUNDED stand-in for the scatter/bookkeeping clauses plus proved arithmetic side conditions (see functions_under_contract when present). '
-        'The real BaseEngineLineOCR.process_lines is run on a subclass whose run_ocr is a local stub network (frame t depends on pixel columns '
-        '[4t-4, 4t+8) of its own row only). For every list of 0..3 line crops with widths from {1,31,32,33,100,500,4000} (4000 exceeds the engine '
-        'maximum and is truncated), batch sizes, the five modes (sparse/dense x tight/no-tight, no-logits), longer lists in many orders, and calls '
-        'preceded by other calls on the same engine: the transcription, the logits inside the frame window and the window at every input position '
-        'equal those computed from that image alone; the window is [pad/4, (pad+width)/4) clipped to the frames that exist; sparse storage keeps '
-        'exactly the logits whose posterior is >= 1e-4.')
+        'Hybrid. PROVED for every list of lines (any number, any widths), every batch-size setting, padding and subsampling (pyvc, '
+        'contracts/batchocr.py, CTC configuration, dense logits and the no-logits mode): the index bookkeeping of the real process_lines — the '
+        'processing order is a permutation of the input positions (sorted by width), the while loop consumes it batch by batch without skipping or '
+        'repeating a line, and the scatter puts at EVERY input position i the transcription and logits the network produced for image i and the '
+        'frame window [pad // sub, min((pad + width_i) // sub, frames_i)].  Four statements are replaced by their assumed effect (listed in the evidence): '
+        'the shape-check loop, the assembly of the zero-padded batch tensor, the crop of an over-long batch and the network call, whose assumed contract is '
+        '"the i-th output depends on the i-th image only" (a network with a bounded horizontal receptive field on zero padding).  '
+        'BOUNDED (covers what the proof assumes): the real BaseEngineLineOCR.process_lines is run on a subclass whose run_ocr is a local stub network '
+        '(frame t depends on pixel columns [4t-4, 4t+8) of its own row only). For every list of 0..3 line crops with widths from '
+        '{1,31,32,33,100,500,4000} (4000 exceeds the engine maximum and is truncated), batch sizes, the five modes (sparse/dense x tight/no-tight, '
+        'no-logits), longer lists in many orders, and calls preceded by other calls on the same engine: the transcription, the logits inside the frame '
+        'window and the window at every input position equal those computed from that image alone; the window is [pad/4, (pad+width)/4) clipped to the '
+        'frames that exist; sparse storage keeps exactly the logits whose posterior is >= 1e-4.')
+    from pyvc import run as vrun
+    from contracts import batchocr as BC
+    core.setup_repo_path()
+    reps = vrun.verify(BC.KEYS, BC.CONTRACTS, root=core.repo_root(), both=thorough)
+    ctx.add_proof_reports(reps, clause='every input position receives the result of its own image and its own frame window (index bookkeeping)')
+    ctx.trusted += ['ASSUMED contract of run_ocr: the i-th transcription / logits depend on the i-th image of the batch only (bounded receptive field on zero padding) — checked with stub networks by the bounded tier',
+                    'process_lines proved in the CTC configuration (model_type == "ctc"), sparse_logits = tight_crop_logits = False; the transformer path (splitting / merging, C15) and sparse storage are bounded only']
     items = bounded.order(plans(thorough), ctx.seed)
     res = bounded.pmap(_chunk, bounded.shard(items, 64))
     seen = set()
